@@ -233,7 +233,7 @@ def run_copy_noncontiguous(ctx, count):
     sr_real = fggs.RealSemiring(dtype=torch.float64)
     for k in range(count):
         n = ctx.rng.choice([2, 3])
-        kind = ctx.rng.choice(['eye', 'full', 'iter-slice', 'transposed'])
+        kind = ctx.rng.choice(['eye', 'full', 'iter-slice', 'transposed', 'numel-grows', 'numel-shrinks'])
         if kind == 'eye':
             x = PatternedTensor.eye(n, sr_real)
             d = PatternedTensor(torch.arange(1., n + 1, dtype=torch.float64), x.paxes, x.vaxes, 0.) if False else None
@@ -243,6 +243,14 @@ def run_copy_noncontiguous(ctx, count):
         elif kind == 'full':
             x = PatternedTensor.full((n, n), 2.0, dtype=torch.float64)
             d = PatternedTensor(torch.arange(1., n * n + 1, dtype=torch.float64).reshape(n, n))
+        elif kind in ('numel-grows', 'numel-shrinks'):
+            # destination and source of different physical sizes (a sparsity pattern that changes between two iterates of fixed_point):
+            # the destination's storage cannot be reused, and it must not end up SHARING the source's
+            from fggs.indices import PhysicalAxis
+            kk = PhysicalAxis(n)
+            diag = PatternedTensor(torch.arange(1., n + 1, dtype=torch.float64), (kk,), (kk, kk), 0.)
+            dense = PatternedTensor(torch.arange(30., 30. + n * n, dtype=torch.float64).reshape(n, n))
+            x, d = (diag, dense) if kind == 'numel-grows' else (dense, diag)
         elif kind == 'iter-slice':
             base = PatternedTensor(torch.arange(1., n * n * 2 + 1, dtype=torch.float64).reshape(n, 2, n)).permute((1, 0, 2)) if False else \
                 PatternedTensor(torch.arange(1., n * n + 1, dtype=torch.float64).reshape(n, n)).t()
